@@ -263,6 +263,9 @@ class RefObj:
         c = self.rt.schema.classes.get(self.cls)
         m = c.method(name) if c else None
         if m is None:
+            um = self.rt.extra_env.get("__methods__", {}).get(name)
+            if um is not None:
+                return lambda *a: um(self, *[force(x) for x in a])
             if name in ("getAttributeFloat", "getAttributeVectorFloat") and self.cls == "xAOD::Jet":
                 return lambda a: self._attr(name, a)
             raise Undefined(f"no method {self.cls}.{name}")
